@@ -66,7 +66,9 @@ let () =
                ()   (* the core always merges a Die level identical to the Package level (hwloc_filter_levels_keep_structure) *)
              else if is_cache l.lv_type && (let dup = ref false in for d2 = d + 1 to nl - 1 do if lv.(d2).lv_type = l.lv_type && lv.(d2).lv_width = l.lv_width then dup := true done; !dup) then
                ()   (* merged into the deeper level of the same type (merge_insert_equal keeps the object inserted first) *)
-             else if l.lv_type <> hWLOC_OBJ_GROUP then
+             else if l.lv_type = hWLOC_OBJ_GROUP && (let same = ref false in for d2 = 0 to nl - 1 do if d2 <> d && lv.(d2).lv_type <> hWLOC_OBJ_NUMANODE && lv.(d2).lv_width = l.lv_width then same := true done; !same) then
+               ()   (* a Group with the cpusets of another level brings no structure: merged by the core *)
+             else if true then
                for j = 0 to w.(d) - 1 do pr "O %d %d %s %s\n" t ix.(j) (if is_cache l.lv_type then dec_of_n l.lv_mem else "0") (puset d j) done
            done;
            (* attached NUMA nodes: os_index in creation order of hwloc__look_synthetic (children, self, attached) *)
